@@ -75,3 +75,10 @@ add(
     "Trusts numpy's seeded global RNG as the only randomness of the numpy backend, the C13 dense closed forms, and Delta.terms for locating sample points.",
     "DESIGN.md section 3 C14",
 )
+add(
+    "C08",
+    "property-based testing: generated semiring expressions (7 semirings) through normalize / unfold / optimizer routes and generated einsum equations vs. the reference evaluator; metamorphic idempotence of normalize",
+    "Bounded exploration: nested sums of products over <=5 names (operands renamed/indexed, reduced names missing from some or all operands, free real scalars) are evaluated via normalize+eager, unfold+eager and apply_optimizer (lazy- and normalize-built inputs) and compared with the oracle at every point; normalising twice must return the identical object; einsum, naive_einsum and naive_contract_einsum are compared with an explicit numpy fold for generated equations on three backends.",
+    "Trusts vf/lang.py and numpy; data non-negative wherever max/min is paired with mul, booleans for or/and (the declared carriers).",
+    "DESIGN.md section 3 C08",
+)
